@@ -108,36 +108,62 @@ class Engine:
         if cell is not None:
             cell[3] = False
 
-    def run(self, horizon):
-        last_t, last_who = None, None
+    def _who(self, cell):
+        item = cell[2]
+        return item[1] if item[0] in ("src", "hot") else "timer"
+
+    def _relevant(self, cell):
+        item = cell[2]
+        if item[0] == "src":
+            return item[1].live
+        if item[0] == "hot":
+            return any(s_.live and s_.sid == item[1] for s_ in self.subs)
+        return True
+
+    def run(self, horizon, mask=None):
+        """Process the queue instant by instant.  An instant whose batch mixes different sources is a tie
+        (raised).  A batch mixing one source with operator timers is raised as a tie when mask is None;
+        otherwise bit k of mask resolves the k-th such instant (1 = timers first, 0 = source first)."""
+        self.nties = 0
         while self.q and self.q[0][0] <= horizon:
-            t, _, item, alive = heapq.heappop(self.q)
-            if not alive:
+            t = self.q[0][0]
+            batch = []
+            while self.q and self.q[0][0] == t:
+                c = heapq.heappop(self.q)
+                if c[3] and self._relevant(c):
+                    batch.append(c)
+            if not batch:
                 continue
-            if item[0] == "src" and not item[1].live:
-                if item[1].t_end == t and last_t == t and last_who is not item[1]:
-                    raise Tie()  # silenced in this very instant by another source's event: the order decided the outcome
-                continue
-            if item[0] == "hot" and not any(s_.live and s_.sid == item[1] for s_ in self.subs):
-                if last_t == t and last_who != item[1] and any(s_.sid == item[1] and s_.t_end == t for s_ in self.subs):
-                    raise Tie()
-                continue
-            self.now = t
-            who = item[1] if item[0] in ("src", "hot") else "timer"
-            if last_t == t and last_who is not who and not self.done:
-                # two different sources (or a source and an operator timer) at one instant
+            self.now = float(t)
+            whos = []
+            for c in batch:
+                w_ = self._who(c)
+                if not any(w_ is x or w_ == x for x in whos):
+                    whos.append(w_)
+            srcs = [x for x in whos if not (isinstance(x, str) and x == "timer")]
+            if len(srcs) > 1 and not self.done:
                 raise Tie()
-            last_t, last_who = t, who
-            if item[0] == "src":
-                self._deliver(item[1], item[2], item[3])
-            elif item[0] == "hot":
-                if any(s_.sid == item[1] and s_.t_sub == t for s_ in self.subs):
-                    raise Tie()  # subscribed to a hot source at the very instant one of its events fires
-                for s_ in [s_ for s_ in self.subs if s_.live and s_.sid == item[1]]:
-                    if s_.live:
-                        self._deliver(s_, item[2], item[3])
-            else:
-                item[1]()
+            if len(whos) > 1 and not self.done:
+                if mask is None:
+                    raise Tie()
+                bit = (mask >> self.nties) & 1
+                self.nties += 1
+                batch.sort(key=lambda c: ((c[2][0] == "timer") != bool(bit), c[1]))
+            for c in batch:
+                item = c[2]
+                if not c[3]:
+                    continue
+                if item[0] == "src":
+                    if item[1].live:
+                        self._deliver(item[1], item[2], item[3])
+                elif item[0] == "hot":
+                    if any(s_.sid == item[1] and s_.t_sub == t for s_ in self.subs):
+                        raise Tie()  # subscribed to a hot source at the very instant one of its events fires
+                    for s_ in [s_ for s_ in self.subs if s_.live and s_.sid == item[1]]:
+                        if s_.live:
+                            self._deliver(s_, item[2], item[3])
+                else:
+                    item[1]()
         return self
 
     def intervals(self):
